@@ -1011,8 +1011,13 @@ class Stats:
 
 
 class Engine:
-    def __init__(self, max_paths=20000, max_decisions=4000, timeout_ms=60000, name='', incremental=True):
+    def __init__(self, max_paths=20000, max_decisions=4000, timeout_ms=60000, name='', incremental=True,
+                 isolate=()):
         self.name = name
+        # classes / modules whose mutable class-level (module-level) containers are put back to their state
+        # at the start of explore() before every path: paths are re-executions in ONE interpreter, and a
+        # memo filled on one path (possibly with symbolic keys) must not leak into the next
+        self.isolate = list(isolate)
         # incremental=False: every feasibility check runs in a fresh solver (z3's incremental core
         # has no fpa2bv/sat preprocessing: floating-point path conditions are ~100x slower there)
         self.incremental = incremental
@@ -1278,11 +1283,13 @@ class Engine:
     def explore(self, fn: Callable[[], Any], catch=(Exception,)) -> List[PathResult]:
         results: List[PathResult] = []
         self.work = [[]]
+        snap = _snapshot_containers(self.isolate)
         while self.work:
             prefix = self.work.pop()
             if self.stats.paths >= self.max_paths:
                 self.stats.inconclusive.append(f'{self.name}: max paths {self.max_paths}')
                 raise Inconclusive('max paths')
+            _restore_containers(snap)
             self._start_path(prefix)
             w0 = len(self.work)
             if self._check() != z3.sat:
@@ -1329,6 +1336,48 @@ class Engine:
         terms = list(self.base) + list(pc) + [negated_goal]
         r, m = self.check_sat(terms, timeout_ms)
         return r, m
+
+
+def _snapshot_containers(objs):
+    import copy
+    snap = []
+    for o in objs:
+        keep = {}
+        for k, v in list(vars(o).items()):
+            if isinstance(v, (dict, list, set)) and not k.startswith('__'):
+                try:
+                    keep[k] = copy.deepcopy(v)
+                except Exception:       # noqa: containers of uncopyable objects: one level
+                    keep[k] = copy.copy(v)
+        snap.append((o, keep))
+    return snap
+
+
+def _restore_containers(snap):
+    import copy
+    for o, keep in snap:
+        for k, v in list(vars(o).items()):
+            if isinstance(v, (dict, list, set)) and not k.startswith('__') and k not in keep:
+                try:
+                    delattr(o, k)
+                except Exception:       # noqa
+                    pass
+        for k, v in keep.items():
+            cur = vars(o).get(k)
+            try:
+                fresh = copy.deepcopy(v)
+            except Exception:           # noqa
+                fresh = copy.copy(v)
+            if isinstance(cur, dict) and isinstance(fresh, dict):
+                cur.clear()
+                cur.update(fresh)       # in place: other references to the container stay valid
+            elif isinstance(cur, list) and isinstance(fresh, list):
+                cur[:] = fresh
+            elif isinstance(cur, set) and isinstance(fresh, set):
+                cur.clear()
+                cur.update(fresh)
+            else:
+                setattr(o, k, fresh)
 
 
 def model_int(m, t) -> int:
@@ -1389,6 +1438,28 @@ def bool_term(x):
 
 _F64 = z3.Float64()
 _RNE = z3.RNE()
+
+
+_fp_ln = z3.Function('fp_ln', _F64, _F64)
+FP_LN_APPS = []         # (argument, result) terms of np.log applications on doubles, per session
+
+
+def fp_ln_contract():
+    """Instances of the contract of libm's log on doubles for the registered applications:
+    x = +-0 -> -inf;  x NaN or x < 0 -> NaN;  x = +inf -> +inf;  0 < x < inf -> finite with
+    -745.14 <= ln x <= 709.79 (ln of the smallest subnormal / the largest double), ln x <= 0 for x <= 1 and
+    ln x >= 0 for x >= 1."""
+    out = []
+    fv = lambda v: z3.FPVal(v, _F64)
+    for x, r in FP_LN_APPS:
+        pos = z3.And(z3.fpGT(x, fv(0.0)), z3.Not(z3.fpIsInf(x)), z3.Not(z3.fpIsNaN(x)))
+        out.append(z3.Implies(z3.fpIsZero(x), z3.And(z3.fpIsInf(r), z3.fpIsNegative(r))))
+        out.append(z3.Implies(z3.Or(z3.fpIsNaN(x), z3.fpLT(x, fv(0.0))), z3.fpIsNaN(r)))
+        out.append(z3.Implies(z3.And(z3.fpIsInf(x), z3.fpIsPositive(x)), z3.And(z3.fpIsInf(r), z3.fpIsPositive(r))))
+        out.append(z3.Implies(pos, z3.And(z3.fpGEQ(r, fv(-745.14)), z3.fpLEQ(r, fv(709.79)))))
+        out.append(z3.Implies(z3.And(pos, z3.fpLEQ(x, fv(1.0))), z3.fpLEQ(r, fv(0.0))))
+        out.append(z3.Implies(z3.And(pos, z3.fpGEQ(x, fv(1.0))), z3.fpGEQ(r, fv(0.0))))
+    return out
 
 
 class SymFP:
@@ -1488,6 +1559,14 @@ class SymFP:
 
     def floor(self):
         return SymFP(z3.fpRoundToIntegral(z3.RTN(), self.t))
+
+    def log(self):
+        """np.log of a double: an uninterpreted function Float64 -> Float64; every application is
+        registered in FP_LN_APPS so that the caller can add the instances of libm's contract
+        (`fp_ln_contract`) to its queries."""
+        r = _fp_ln(self.t)
+        FP_LN_APPS.append((self.t, r))
+        return SymFP(r)
 
     def __round__(self, ndigits=None):
         """builtin round(x): round half to even, as a double holding an integral value."""
